@@ -242,8 +242,15 @@ fn produce_image_from_entry(entry: &Entry) -> Result<image::RgbaImage, String> {
 
     let offset_x = entry.specs.offset_x;
     let offset_y = entry.specs.offset_y;
-    let output_width = content_width + offset_x;
-    let output_height = content_height + offset_y;
+    // (the offsets come straight from the file; don't let a corrupt one overflow the arithmetic
+    //  or make us allocate gigabytes)
+    const MAX_OUTPUT_PIXELS: u64 = 1 << 26;
+    let output_width = content_width as u64 + offset_x as u64;
+    let output_height = content_height as u64 + offset_y as u64;
+    if output_width > MAX_OUTPUT_PIXELS || output_height > MAX_OUTPUT_PIXELS || output_width * output_height > MAX_OUTPUT_PIXELS {
+        return Err(format!("image is unreasonably large ({}x{} after applying offsets)", output_width, output_height));
+    }
+    let (output_width, output_height) = (output_width as u32, output_height as u32);
     let output_init_argb = vec![0xFF; 4 * output_width as usize * output_height as usize];
     let mut output = BgraImage::from_raw(output_width, output_height, output_init_argb).expect("size error?!");
 
